@@ -21,12 +21,13 @@ for d in sorted(glob.glob(os.path.join(os.path.dirname(__file__), "..", "seeded"
     fired = m.get("checks_that_fired", [])
     mon = m.get("first_monitor_per_check", {}).get(own, "")
     mon = mon.split(" ")[0] if mon else ""
-    status = "obsolete (see meta.json)" if m.get("status", "").startswith("obsolete") else ("yes" if own in fired else "**NO**")
+    st = m.get("status", "")
+    status = "obsolete (see meta.json)" if st.startswith("obsolete") else "outside (see meta.json)" if st.startswith("outside") else ("yes" if own in fired else "**NO**")
     rows.append((m["id"], own, status, mon, " ".join(fired), what))
 print("| seeded change | property | caught by its own check | first monitor that fired | all quick checks that fired | what the change is |")
 print("|---|---|---|---|---|---|")
 for r in rows:
     print("| " + " | ".join(r) + " |")
 print()
-live = [r for r in rows if not r[2].startswith("obsolete")]
+live = [r for r in rows if not r[2].startswith("obsolete") and not r[2].startswith("outside")]
 print(f"{len(rows)} seeded changes, {len(live)} of them valid on the current tree; {sum(1 for r in live if r[2]=='yes')} of those caught by the owning property's quick check.")
